@@ -171,6 +171,11 @@ Apply(d, a) ==
       [] a.op = "EntJoin" -> UpdEnt(d, a.e, LAMBDA x :
                                 IF a.what = "group" THEN [x EXCEPT !.groups = SortInts(SeqToSet(@) \cup {a.id})]
                                 ELSE [x EXCEPT !.vis = SortInts(SeqToSet(@) \cup {a.id})])
+      \* several memberships added one by one (a.ids in insertion order; the sets are unordered)
+      [] a.op = "EntJoinSeq" -> UpdEnt(d, a.e, LAMBDA x :
+                                IF a.what = "group" THEN [x EXCEPT !.groups = SortInts(SeqToSet(@) \cup SeqToSet(a.ids))]
+                                ELSE [x EXCEPT !.vis = SortInts(SeqToSet(@) \cup SeqToSet(a.ids))])
+      [] a.op = "SolidJoinSeq" -> UpdSolid(d, a.e, a.s, LAMBDA x : [x EXCEPT !.vis = SortInts(SeqToSet(@) \cup SeqToSet(a.ids))])
       [] a.op = "AddPrism" ->
             LET sid == FreeIds(SideIds(d), 6)
                 sol == NewSolid(LowestFree(SolidIds(d)), PrismSides(sid, a.p1, a.p2, a.mat, a.points))
